@@ -917,10 +917,42 @@ func callbackOrigin(v ssa.Value) *ssa.Parameter {
 
 // enqueuedClosure: fn is an anonymous function whose only use is as the
 // callback argument of a (non-go, non-defer) static call to enqueue.
-func enqueuedClosure(fn *ssa.Function, a *svcAnchors) bool {
+func enqueuedClosure(fn *ssa.Function, a *svcAnchors, root []*ssa.Function) bool {
 	par := fn.Parent()
 	if par == nil {
 		return false
+	}
+	// handedOnToEnqueue: the closure is the result of its (unexported, never address-taken) maker, and
+	// every call of the maker is used only as the callback argument of enqueue
+	handedOnToEnqueue := func() bool {
+		if par.Parent() != nil || par.Object() == nil || par.Object().Exported() {
+			return false
+		}
+		cs := callsTo(root, par)
+		if len(cs) == 0 {
+			return false
+		}
+		for _, c := range cs {
+			cv, ok := c.(*ssa.Call)
+			if !ok || cv.Referrers() == nil {
+				return false
+			}
+			n := 0
+			for _, rf := range *cv.Referrers() {
+				if _, ok := rf.(*ssa.DebugRef); ok {
+					continue
+				}
+				ec, ok := rf.(*ssa.Call)
+				if !ok || ec.Common().StaticCallee() != a.Enqueue {
+					return false
+				}
+				n++
+			}
+			if n == 0 {
+				return false
+			}
+		}
+		return true
 	}
 	uses, enq := 0, 0
 	for _, b := range par.Blocks {
@@ -937,6 +969,9 @@ func enqueuedClosure(fn *ssa.Function, a *svcAnchors) bool {
 						}
 						uses++
 						if c, ok := rf.(*ssa.Call); ok && c.Common().StaticCallee() == a.Enqueue {
+							enq++
+						}
+						if _, isRet := rf.(*ssa.Return); isRet && handedOnToEnqueue() {
 							enq++
 						}
 					}
@@ -968,7 +1003,7 @@ func workerOnly(fn *ssa.Function, a *svcAnchors, root []*ssa.Function, seen map[
 		return true, ""
 	}
 	if fn.Parent() != nil {
-		if enqueuedClosure(fn, a) {
+		if enqueuedClosure(fn, a, root) {
 			return true, ""
 		}
 		return false, core.FuncName(fn) + " is a closure not handed (only) to enqueue"
